@@ -64,6 +64,10 @@ class SwitchWriteHandler(AbstractWriteHandler):
         m = op.get_marker()
         assert isinstance(m, SwitchStart)
         self.decompiler.source_map_add_opcode(op.offset)
+        for param in op.root.params:
+            # Strings print over several lines: indent them like the header, not like whatever printed them last.
+            if hasattr(param, "indent"):
+                param.indent = self.decompiler.indent
         self.decompiler.write_stmnt(f"switch ( {self._switch_header_for(op.root)} )")
         is_switch_dungeon_mode = op.root.op_code.name == OP_SWITCH_DUNGEON_MODE
 
